@@ -24,6 +24,7 @@ type World struct {
 	LoadSecs  float64
 	Files     []string // contract files read
 	SpecUFs   map[string]*SpecUF
+	SpecDefs  map[string]*SpecDef
 }
 
 // ShortName is the key used in contracts and obligation names.
@@ -57,7 +58,7 @@ func Load(repo string, patterns ...string) (*World, error) {
 	if len(errs) > 0 {
 		return nil, fmt.Errorf("package errors: %s", strings.Join(errs, "; "))
 	}
-	prog, _ := ssautil.AllPackages(pkgs, ssa.GlobalDebug|ssa.InstantiateGenerics*0)
+	prog, _ := ssautil.AllPackages(pkgs, ssa.GlobalDebug|ssa.InstantiateGenerics)
 	prog.Build()
 	w := &World{Repo: repo, Prog: prog, Pkgs: pkgs, Funcs: map[string]*ssa.Function{}, Contracts: map[string]*FnContract{}}
 	for f := range ssautil.AllFunctions(prog) {
